@@ -569,14 +569,63 @@ func runC02(args []string) error {
 	thorough := fs.Bool("thorough", false, "all chain/flag/hash/key/sequence/version combinations")
 	fs.Parse(args)
 	r := NewRng(*seed)
-	cf := NewCaseFile("From PS Require Import Base.ScriptOps Model.ScriptInterp Model.OpeningScript Model.C02Corr.",
-		"c02_case", "c02_check", "c02_monitor")
-	c02ScriptFamily(cf, r, *n)
-	if err := c02ChainFamily(cf, r, 24); err != nil {
+	imports := "From PS Require Import Base.ScriptOps Model.ScriptInterp Model.OpeningScript Model.C02Corr."
+	fams := []*CaseFile{}
+	for i := 0; i < 3; i++ {
+		fams = append(fams, NewCaseFile(imports, "c02_case", "c02_check", "c02_monitor"))
+	}
+	c02ScriptFamily(fams[0], r, *n)
+	if err := c02ChainFamily(fams[1], r, 24); err != nil {
 		return err
 	}
-	if err := c02EngineFamily(cf, r, *thorough, *maxlen); err != nil {
+	if err := c02EngineFamily(fams[2], r, *thorough, *maxlen); err != nil {
 		return err
 	}
-	return cf.Write(*out, 24, map[string]interface{}{"seed": *seed, "maxlen": *maxlen})
+	// interleave the families so that the expensive engine cases spread evenly over the shards
+	cf := NewCaseFile(imports, "c02_case", "c02_check", "c02_monitor")
+	total := 0
+	for _, f := range fams {
+		total += len(f.Cases)
+	}
+	idx := make([]int, len(fams))
+	for k := 0; k < total; k++ {
+		// pick the family that is furthest behind its proportional share
+		best, bestv := -1, 2.0
+		for i, f := range fams {
+			if idx[i] >= len(f.Cases) {
+				continue
+			}
+			v := float64(idx[i]) / float64(len(f.Cases))
+			if v < bestv {
+				best, bestv = i, v
+			}
+		}
+		f := fams[best]
+		i := idx[best]
+		idx[best]++
+		kind := ""
+		cf.Cases = append(cf.Cases, f.Cases[i])
+		cf.Keys = append(cf.Keys, f.Keys[i])
+		cf.NonTriv = append(cf.NonTriv, f.NonTriv[i])
+		cf.JSONCase = append(cf.JSONCase, f.JSONCase[i])
+		_ = kind
+	}
+	for _, f := range fams {
+		for k, v := range f.Kinds {
+			cf.Kinds[k] += v
+		}
+		for _, sm := range f.Samples {
+			if len(cf.Samples) < 12 {
+				cf.Samples = append(cf.Samples, sm)
+			}
+		}
+	}
+	shard := (total + 15) / 16
+	if shard > 60 {
+		shard = 60
+	}
+	if shard < 1 {
+		shard = 1
+	}
+	return cf.Write(*out, shard, map[string]interface{}{"seed": *seed, "maxlen": *maxlen})
 }
